@@ -22,9 +22,11 @@ BOUNDS = {'quick': '4 models, every entry, 20 operators, 3 positions', 'thorough
 
 def models():
     pair = Ini([['Tabulation', [['target', 'LAMMPS'], ['nr', '4'], ['cutoff', '2.0']]],
-                ['Pair', [['O-O', 'as.buck 1000.0 0.3 32.0'], ['U-O', 'cbuck 800.0 0.35'], ['U-U', 'sum(as.bornmayer 850.0 0.35, tf)']]],
+                ['Pair', [['O-O', 'as.buck 1000.0 0.3 32.0'], ['U-O', 'cbuck 800.0 0.35'], ['U-U', 'sum(as.bornmayer 850.0 0.35, tf)'], ['Th-Th', 'aa']]],
                 ['Potential-Form', [['cbuck(r,A,rho)', 'A*exp(-r/rho) + 1.0/r'], ['helper(r,s)', 's/r^2']]],
-                ['Table-Form:tf', [['x', '0 1 2 3'], ['y', '3 2 1 0.5']]]])
+                ['Table-Form:tf', [['x', '0 1 2 3'], ['y', '3 2 1 0.5']]],
+                # a second table form whose section name sorts between the blank-variants of the first
+                ['Table-Form:aa', [['xy', '0 5 1 4 2 2 3 1']]]])
     tab = [['nr', '3'], ['cutoff', '2.0'], ['nrho', '3'], ['cutoff_rho', '10.0']]
     eam = Ini([['Tabulation', [['target', 'setfl']] + tab],
                ['EAM-Embed', [['Cu', '>=0 as.polynomial 0.2 -1.3 0.02'], ['Al', '>=0 as.polynomial 0.1 -1.0 0.01']]],
